@@ -41,7 +41,9 @@ def impl(fam, m, x, as_numpy=False):
     p = problem(fam, m, len(x))
     if as_numpy:
         import numpy as np
-        v = [np.float64(t) for t in x]
+        # numpy scalars in a list, or (every other time) the whole point as a float ndarray - the container that
+        # artap's CMA-ES / CEM hand to evaluate(); slices of it are views, not copies
+        v = [np.float64(t) for t in x] if (len(x) + int(float(x[0]) * 1e6)) % 2 else np.array([float(t) for t in x])
     else:
         v = list(x)
     out = p.evaluate(Individual(v))
